@@ -2,3 +2,5 @@ import IgVerif.Model.Bytes
 import IgVerif.Lemmas.CType
 import IgVerif.Model.Scope
 import IgVerif.Props.C06
+import IgVerif.Lemmas.Traits
+import IgVerif.Props.C10
